@@ -198,4 +198,81 @@ FUNCTIONS = {
                 ]},
         },
     },
+    # the same function called with a non-empty list of atoms (as the reactor does): only the listed atoms are expanded; duplicates and ids that
+    # are not in the graph are harmless
+    HM + "::h_to_explicit~list": {
+        "params": {"G": "obj:Graph", "nodes": "list[any]", "its": "const:False"},
+        "vars": {"parent": "dict[any,any]", "first": "dict[any,int]", "proc": "set[any]"},
+        "returns": "obj:Graph",
+        "requires": ["len(nodes) > 0", "forall(G.nodes, lambda n: is_index(n))",
+                     "forall(G.nodes, lambda n: isinstance(G.nodes[n].get('hcount', 0), int) and not isinstance(G.nodes[n].get('hcount', 0), bool))",
+                     "forall(G.nodes, lambda n: 'typesGH' not in G.nodes[n])"],
+        "modifies": [],
+        "ensures": [
+            "is_fresh(result)",
+            # the original atoms stay, with every attribute but the hydrogen count
+            "forall(G.nodes, lambda n: result.has_node(n))",
+            "forall(G.nodes, lambda n: forall('str', lambda k: implies(k != 'hcount', same(result.nodes[n].get(k), G.nodes[n].get(k)))))",
+            # a positive hydrogen count is used up entirely, any other count is left alone
+            "forall(G.nodes, lambda n: implies(n in nodes and hc(G, n) > 0, result.nodes[n].get('hcount') == 0))",
+            "forall(G.nodes, lambda n: implies(not (n in nodes and hc(G, n) > 0), same(result.nodes[n].get('hcount'), G.nodes[n].get('hcount'))))",
+            # the original bonds stay with their attributes
+            "forall(G.edges, lambda u, v: result.has_edge(u, v) and same(result[u][v], G[u][v]))",
+            # every other atom is a new hydrogen with a fresh integer id
+            "forall(result.nodes, lambda n: G.has_node(n) or (is_index(n) and is_new_h(result, n) and forall(G.nodes, lambda m: m < n)))",
+        ],
+        "ghost_ensures": [
+            # each new hydrogen hangs on exactly one original atom (its parent) by a single bond, and on nothing else
+            "forall(result.nodes, lambda n: G.has_node(n) or (n in parent and G.has_node(parent[n]) and result.has_edge(parent[n], n) "
+            "       and single_bond(result, parent[n], n)))",
+            "forall(result.edges, lambda u, v: G.has_edge(u, v) or (not G.has_node(v) and v in parent and same(parent[v], u)) "
+            "       or (not G.has_node(u) and u in parent and same(parent[u], v)))",
+            # the new hydrogens of an atom are `count` consecutive ids: exactly as many as its hydrogen count said
+            "forall(G.nodes, lambda n: implies(n in nodes and hc(G, n) > 0, n in first and forall('int', lambda m: implies(first[n] < m and m <= first[n] + hc(G, n), "
+            "       result.has_node(m) and not G.has_node(m) and m in parent and same(parent[m], n)))))",
+            "forall(result.nodes, lambda m: G.has_node(m) or (parent[m] in first and first[parent[m]] < m and m <= first[parent[m]] + hc(G, parent[m])))",
+        ],
+        "loops": {
+            1: {"modifies": ["H2.nodes", "H2.nattr", "H2.adj", "H2.eattr"],
+                "ghost_init": ["parent = {}", "first = {}", "proc = set()"], "ghost_step": ["proc.add(heavy)"],
+                "inv": [
+                    "is_index(max_node) and forall(H2.nodes, lambda n: is_index(n) and n <= max_node)",
+                    "forall(G.nodes, lambda n: H2.has_node(n))",
+                    "forall(G.nodes, lambda n: 'typesGH' not in H2.nodes[n])",
+                    "forall(G.nodes, lambda n: forall('str', lambda k: implies(k != 'hcount', same(H2.nodes[n].get(k), G.nodes[n].get(k)))))",
+                    "forall(G.nodes, lambda n: implies(n not in proc, same(H2.nodes[n].get('hcount'), G.nodes[n].get('hcount')) and ('hcount' in H2.nodes[n]) == ('hcount' in G.nodes[n])))",
+                    "forall(range(done), lambda j: nodes[j] in proc)", "forall(proc, lambda n: n in nodes)",
+                    "forall(G.nodes, lambda n: implies(n in proc and hc(G, n) > 0, H2.nodes[n].get('hcount') == 0))",
+                    "forall(G.nodes, lambda n: implies(n in proc and not hc(G, n) > 0, same(H2.nodes[n].get('hcount'), G.nodes[n].get('hcount'))))",
+                    "forall(G.edges, lambda u, v: H2.has_edge(u, v) and same(H2[u][v], G[u][v]))",
+                    "forall(H2.nodes, lambda n: G.has_node(n) or (is_new_h(H2, n) and forall(G.nodes, lambda m: m < n)))",
+                    "forall(H2.nodes, lambda n: G.has_node(n) or (n in parent and G.has_node(parent[n]) and parent[n] in proc and H2.has_edge(parent[n], n) "
+                    "       and single_bond(H2, parent[n], n)))",
+                    "forall(parent, lambda n: H2.has_node(n) and not G.has_node(n))",
+                    "forall(H2.edges, lambda u, v: G.has_edge(u, v) or (not G.has_node(v) and v in parent and same(parent[v], u)) "
+                    "       or (not G.has_node(u) and u in parent and same(parent[u], v)))",
+                    "forall(G.nodes, lambda n: implies(n in proc and hc(G, n) > 0, n in first and forall('int', lambda m: implies(first[n] < m and m <= first[n] + hc(G, n), "
+                    "       H2.has_node(m) and not G.has_node(m) and m in parent and same(parent[m], n)))))",
+                    "forall(H2.nodes, lambda m: G.has_node(m) or (parent[m] in first and first[parent[m]] < m and m <= first[parent[m]] + hc(G, parent[m])))",
+                ]},
+            2: {"modifies": ["H2.nodes", "H2.nattr", "H2.adj", "H2.eattr"],
+                "ghost_init": ["first[heavy] = max_node"],
+                "ghost_step": ["parent[max_node] = heavy"],
+                "inv": [
+                    "is_index(max_node) and max_node == first[heavy] + done and first[heavy] == at_iter(max_node)",
+                    "forall(H2.nodes, lambda n: is_index(n) and n <= max_node)",
+                    "forall('any', lambda n: H2.has_node(n) == (at_iter(H2.has_node(n)) or (is_index(n) and first[heavy] < n and n <= max_node)))",
+                    "forall(at_iter(set(H2.nodes)), lambda n: same(H2.nodes[n], at_iter(H2.nodes[n])))",
+                    "forall('int', lambda m: implies(first[heavy] < m and m <= max_node, is_new_h(H2, m) and m in parent and same(parent[m], heavy) "
+                    "       and H2.has_edge(heavy, m) and single_bond(H2, heavy, m)))",
+                    "forall(at_iter(keys(parent)), lambda n: n in parent and same(parent[n], at_iter(parent[n])))",
+                    "forall(parent, lambda n: at_iter(n in parent) or (is_index(n) and first[heavy] < n and n <= max_node))",
+                    "forall(at_iter(keys(first)), lambda n: implies(not same(n, heavy), n in first and first[n] == at_iter(first[n])))",
+                    "forall(first, lambda n: at_iter(n in first) or same(n, heavy))",
+                    "forall(('any', 'any'), lambda u, v: implies(at_iter(H2.has_edge(u, v)), H2.has_edge(u, v) and same(H2[u][v], at_iter(H2[u][v]))))",
+                    "forall(H2.edges, lambda u, v: at_iter(H2.has_edge(u, v)) or (same(u, heavy) and is_index(v) and first[heavy] < v and v <= max_node) "
+                    "       or (same(v, heavy) and is_index(u) and first[heavy] < u and u <= max_node))",
+                ]},
+        },
+    },
 }
